@@ -60,7 +60,8 @@ impl TerminationModel {
         use TerminationModel as T;
         match self {
             T::QueryRuntimeLimit { limit, frequency } => {
-                if iteration % frequency == 0 {
+                // a frequency of zero is read as "check on every iteration"
+                if *frequency == 0 || iteration % frequency == 0 {
                     let dur = Instant::now().duration_since(*start_time);
                     Ok(dur > *limit)
                 } else {
